@@ -2,14 +2,20 @@ package main
 
 // C20 library-level entry points.
 //
-//	implrun loadconfig  < {"cwd":dir,"configs":[text,...]}  -> [{"ok":bool,"error":text}, ...]
+//	implrun loadconfig  < {"cwd":dir,"configs":[text,...],"name":file?}  -> [{"ok":bool,"error":text}, ...]
 //	    every text is written to <cwd>/.c20cfg.json and loaded with cmd.LoadGleeceConfig
-//	    (JSON5 decoding + validation exactly as the generate commands do it)
+//	    (JSON5 decoding + validation exactly as the generate commands do it).  ALL texts of one call
+//	    are loaded one after the other in THIS process (a history of loads); for an accepted text
+//	    "config" is the returned *GleeceConfig marshalled to JSON right after its call and "after"
+//	    the same value marshalled again once the whole history has been loaded (a later load must
+//	    not reach into an earlier result).  A caller that wants the answer of a fresh process
+//	    sends one text per call.
 //	implrun gofileinfo  < [path,...]  -> [{"package":..,"imports":[..],"strings":[..],"error":..}, ...]
 //	    go/parser facts about a generated routes file (package clause, import paths, string literals)
 
 import (
 	"bufio"
+	"encoding/json"
 	"go/ast"
 	"go/parser"
 	"go/token"
@@ -23,11 +29,14 @@ import (
 type c20LoadReq struct {
 	Cwd     string   `json:"cwd"`
 	Configs []string `json:"configs"`
+	Name    string   `json:"name"` // file name below cwd (default .c20cfg.json); lets processes share a cwd
 }
 
 type c20LoadRes struct {
-	Ok    bool   `json:"ok"`
-	Error string `json:"error"`
+	Ok     bool            `json:"ok"`
+	Error  string          `json:"error"`
+	Config json.RawMessage `json:"config,omitempty"`
+	After  json.RawMessage `json:"after,omitempty"`
 }
 
 type c20FileInfo struct {
@@ -37,17 +46,26 @@ type c20FileInfo struct {
 	Error   string   `json:"error"`
 }
 
-func c20Load(path string) (res c20LoadRes) {
+func c20Load(path string) (res c20LoadRes, loaded any) {
 	defer func() {
 		if r := recover(); r != nil {
-			res = c20LoadRes{Ok: false, Error: "PANIC: " + toString(r)}
+			res, loaded = c20LoadRes{Ok: false, Error: "PANIC: " + toString(r)}, nil
 		}
 	}()
-	_, err := gleececmd.LoadGleeceConfig(path)
+	cfg, err := gleececmd.LoadGleeceConfig(path)
 	if err != nil {
-		return c20LoadRes{Ok: false, Error: err.Error()}
+		return c20LoadRes{Ok: false, Error: err.Error()}, nil
 	}
-	return c20LoadRes{Ok: true}
+	res = c20LoadRes{Ok: true}
+	if cfg != nil {
+		if raw, e := json.Marshal(cfg); e == nil {
+			res.Config = raw
+			loaded = cfg
+		} else {
+			res.Error = "MARSHAL: " + e.Error()
+		}
+	}
+	return res, loaded
 }
 
 func toString(r any) string {
@@ -69,14 +87,28 @@ func init() {
 		if err := os.Chdir(req.Cwd); err != nil {
 			return err
 		}
-		path := filepath.Join(req.Cwd, ".c20cfg.json")
+		name := req.Name
+		if name == "" {
+			name = ".c20cfg.json"
+		}
+		path := filepath.Join(req.Cwd, name)
 		defer os.Remove(path)
 		res := make([]c20LoadRes, 0, len(req.Configs))
+		kept := make([]any, 0, len(req.Configs))
 		for _, text := range req.Configs {
 			if err := os.WriteFile(path, []byte(text), 0644); err != nil {
 				return err
 			}
-			res = append(res, c20Load(path))
+			r, loaded := c20Load(path)
+			res = append(res, r)
+			kept = append(kept, loaded)
+		}
+		for i, loaded := range kept {
+			if loaded != nil {
+				if raw, e := json.Marshal(loaded); e == nil {
+					res[i].After = raw
+				}
+			}
 		}
 		return writeJSON(out, res)
 	}
